@@ -18,7 +18,7 @@ import (
 func TestVerifC05Fragment(t *testing.T) {
 	r := vk.Start(t, "C05")
 	defer r.Finish()
-	r.Expect("frag:setBit", "frag:clearBit", "frag:bulkImport", "frag:bulkClear", "frag:importRoaring", "frag:importRoaringClear", "frag:noop-import", "frag:snapshot", "frag:reopen-with-log")
+	r.Expect("frag:setBit", "frag:clearBit", "frag:bulkImport", "frag:bulkClear", "frag:importRoaring", "frag:importRoaringClear", "frag:noop-import", "frag:snapshot", "frag:reopen-with-log", "frag:importValue", "frag:importValue-resend", "frag:setValue")
 	dir := filepath.Join(os.Getenv("VERIF_SCRATCH"), "c05frag")
 	os.MkdirAll(dir, 0o755)
 	n := r.N(1500, 60000)
@@ -35,9 +35,11 @@ func TestVerifC05Fragment(t *testing.T) {
 		wit := func() interface{} { return map[string]interface{}{"maxOpN": f.MaxOpN, "ops": ops} }
 		cols := []uint64{0, 1, 2, 3, 4095, 4096, 65535, 65536, 65537}
 		logged := 0
+		var lastCols []uint64
+		var lastVals []int64
 		for step := 0; step < 4+rng.Intn(25); step++ {
 			row := uint64(rng.Intn(3))
-			switch k := rng.Intn(12); {
+			switch k := rng.Intn(14); {
 			case k < 3:
 				c := cols[rng.Intn(len(cols))]
 				ops = append(ops, fmt.Sprintf("setBit(%d,%d)", row, c))
@@ -90,10 +92,48 @@ func TestVerifC05Fragment(t *testing.T) {
 					f.importRoaring(nil2ctxC03(), buf.Bytes(), clear)
 					r.Cover("frag:noop-import")
 				}
-			default:
+			case k < 11:
 				ops = append(ops, "Snapshot()")
 				f.Snapshot()
 				r.Cover("frag:snapshot")
+			default:
+				// integer writes on BSI rows of the same fragment: setValue, and importValue on both of its
+				// paths (op log / rewrite-and-snapshot, chosen by MaxOpN), incl. re-sending the same batch
+				const depth = 6
+				if rng.Bool() || len(lastCols) == 0 {
+					lastCols, lastVals = nil, nil
+					for j := 0; j < 1+rng.Intn(6); j++ {
+						lastCols = append(lastCols, cols[rng.Intn(len(cols))])
+						lastVals = append(lastVals, int64(rng.Intn(127)-63))
+					}
+					// one value per column (the last occurrence would win anyway)
+					seen := map[uint64]bool{}
+					var cc []uint64
+					var vv []int64
+					for j := len(lastCols) - 1; j >= 0; j-- {
+						if !seen[lastCols[j]] {
+							seen[lastCols[j]] = true
+							cc, vv = append(cc, lastCols[j]), append(vv, lastVals[j])
+						}
+					}
+					lastCols, lastVals = cc, vv
+					ops = append(ops, fmt.Sprintf("importValue(cols %v, vals %v)", lastCols, lastVals))
+					r.Cover("frag:importValue")
+				} else {
+					ops = append(ops, fmt.Sprintf("importValue again, same batch (cols %v, vals %v)", lastCols, lastVals))
+					r.Cover("frag:importValue-resend")
+				}
+				if err := f.importValue(append([]uint64(nil), lastCols...), append([]int64(nil), lastVals...), depth, false); err != nil {
+					t.Fatalf("importValue: %v", err)
+				}
+				if rng.Bool() {
+					c, v := cols[rng.Intn(len(cols))], int64(rng.Intn(127)-63)
+					ops = append(ops, fmt.Sprintf("setValue(%d,%d)", c, v))
+					if _, err := f.setValue(c, depth, v); err != nil {
+						t.Fatalf("setValue: %v", err)
+					}
+					r.Cover("frag:setValue")
+				}
 			}
 		}
 		f.mu.Lock()
